@@ -150,16 +150,31 @@ def blocks(tier):
     for n in range(2, 5):
       out += [('perm', n, l, STRATEGIES) for l in label_vectors(n)]
     out += [('perm', 5, l, ONE_PER_STRATEGY) for l in label_vectors(5)]
+    for fam in NEAR_MAPS:
+      for n in range(2, 5):
+        out += [(fam, n, l, ONE_PER_STRATEGY) for l in label_vectors(n)]
   else:
     for n in range(2, 7):
       out += [('grid', n, l, STRATEGIES) for l in label_vectors(n)]
     for n in range(2, 7):
       out += [('perm', n, l, STRATEGIES) for l in label_vectors(n)]
     out += [('sorted', 7, l, STRATEGIES) for l in label_vectors(7)]
+    for fam in NEAR_MAPS:
+      for n in range(2, 6):
+        out += [(fam, n, l, STRATEGIES) for l in label_vectors(n)]
   return out
 
 
+# distinct but NEARLY equal distances (relative gaps ~1e-6, absolute gaps ~1e-12): a legitimate validation set must still get
+# the optimal cut-off between them (added after seeded change C16-1: np.isclose used to group "tied" scores)
+NEAR_MAPS = {'near-rel': {0: 1.0, 1: 1.0 + 2.0 ** -20, 2: 1.0 + 2.0 ** -19},
+             'near-abs': {0: 0.0, 1: 2.0 ** -40, 2: 2.0 ** -39}}
+
+
 def distance_vectors(family, n):
+  if family in NEAR_MAPS:
+    m = NEAR_MAPS[family]
+    return [tuple(m[g] for g in v) for v in itertools.product(GRID, repeat=n)]
   if family == 'grid':
     return itertools.product(GRID, repeat=n)
   if family == 'sorted':
